@@ -202,6 +202,13 @@ def index_cases():
                 out.append((shape, ["T", [a, "E", a]]))
                 out.append((shape, ["T", [a, "N", a]]))
         out.append((shape, "E")); out.append((shape, "N"))
+        # one element spelled twice in one index list (positive and negative position): still a repeated selection
+        n0 = shape[0]
+        for lst in ([0, -n0], [n0 - 1, -1, 1], [-1, 1, n0 - 1]):
+            out.append((shape, ("l", lst))); out.append((shape, ["T", [("l", lst)]]))
+            if r >= 2:
+                out.append((shape, ["T", [("s", None, None, None), ("l", [0, -shape[1]])]]))
+                out.append((shape, ["T", [("l", lst), ("l", [0, -shape[1], 0][: len(lst)])]]))
     out.append(((), "E")); out.append(((), "N")); out.append(((), ["T", []]))
     return out
 
